@@ -226,6 +226,8 @@ func (f *FieldCopyToGenerator) genObjectBody(m *MessageCopyToGenerator, fieldNam
 		if len(m.Fields) > 0 {
 			if !m.IsEmpty {
 				g.Id("obj").Op(":=").Id(fieldName)
+				// Fields which are messages with no fields read nothing from obj
+				g.Id("_").Op("=").Id("obj")
 			}
 			g.Id("tf").Op(":=").Id("&v")
 			m.GenerateFields(g)
